@@ -184,3 +184,90 @@ fn c11b_reference_ppc() { bcj_reference(Arch::Ppc); }
 #[kani::proof]
 #[kani::unwind(10)]
 fn c11b_reference_sparc() { bcj_reference(Arch::Sparc); }
+
+// ---------------------------------------------------------------------------------------------- reader / writer wrappers
+
+// C07-B / C02: BCJWriter: the bytes that reach the sink must not depend on how the caller cuts the data into write
+// calls (the decoder sees one contiguous stream and converts instructions at stream-relative positions).
+//@ {"name":"c07b_bcj_writer_split_arm","props":["C07","C02"],"obligation":"C07-B","timeout":1500,"mem_gb":9,"functions":["filter::bcj::BCJWriter::write","filter::bcj::BCJFilter::arm_code"],"bounds":"ARM filter, start offset 0; 8 arbitrary bytes written as write(x[..c]); write(x[c..]) for any cut c in 0..=8 versus one write; unwind 12","assumes":[]}
+#[kani::proof]
+#[kani::unwind(12)]
+fn c07b_bcj_writer_split_arm() {
+    let x: [u8; 8] = kani::any();
+    let c: usize = kani::any();
+    kani::assume(c <= 8);
+    let mut one = BCJWriter::new_arm(Sink::<16>::new(), 0);
+    assert!(matches!(one.write(&x), Ok(8)));
+    let mut two = BCJWriter::new_arm(Sink::<16>::new(), 0);
+    assert!(matches!(two.write(&x[..c]), Ok(k) if k == c));
+    assert!(matches!(two.write(&x[c..]), Ok(k) if k == 8 - c));
+    let a = one.into_inner();
+    let b = two.into_inner();
+    assert!(a.len == 8 && b.len == 8, "C07-B: bytes lost or duplicated");
+    let i: usize = kani::any();
+    kani::assume(i < 8);
+    assert!(a.buf[i] == b.buf[i], "C07-B: BCJ-encoded bytes depend on how the caller split the write calls");
+    kani::cover!(c % 4 != 0, "cut inside an instruction");
+    kani::cover!(c % 4 == 0 && c > 0 && c < 8, "cut between instructions");
+}
+
+// C11-D / C07-C: BCJReader over a stream produced by the encoder kernel returns the original bytes, for any split of
+// the destination buffer into two read calls.
+//@ {"name":"c11d_bcj_reader_roundtrip_split_arm","props":["C11","C07","C02"],"obligation":"C11-D","timeout":2400,"mem_gb":13,"functions":["filter::bcj::BCJReader::read","filter::bcj::BCJFilter::arm_code"],"bounds":"ARM filter, start offset any 4-aligned u32; 8 arbitrary bytes; destination cut at k in 0..=8 (two read calls, then reads until Ok(0)); unwind 14","assumes":[]}
+#[kani::proof]
+#[kani::unwind(14)]
+fn c11d_bcj_reader_roundtrip_split_arm() {
+    let x: [u8; 8] = kani::any();
+    let start: u32 = kani::any();
+    kani::assume(start % 4 == 0);
+    let mut y = x;
+    let mut e = BCJFilter::new_arm(start as usize, true);
+    let n = e.code(&mut y);
+    assert!(n == 8);
+    let mut r = BCJReader::new_arm(Src::<8>::full(y), start as usize);
+    let mut out = [0u8; 8];
+    let k: usize = kani::any();
+    kani::assume(k <= 8);
+    let mut got = 0usize;
+    let mut calls = 0;
+    // first read with a destination of k bytes, then keep reading the rest until Ok(0)
+    if k > 0 {
+        let m = r.read(&mut out[..k]);
+        assert!(m.is_ok());
+        got += m.unwrap();
+        assert!(got <= k);
+    }
+    while calls < 4 && got < 8 {
+        let m = r.read(&mut out[got..]);
+        assert!(m.is_ok());
+        let m = m.unwrap();
+        if m == 0 { break; }
+        got += m;
+        calls += 1;
+    }
+    assert!(got == 8, "C11-D: BCJ reader lost bytes");
+    let i: usize = kani::any();
+    kani::assume(i < 8);
+    assert!(out[i] == x[i], "C11-D: BCJReader(encode(x)) != x");
+    kani::cover!(y != x, "an instruction was converted");
+    kani::cover!(k % 4 != 0, "destination split inside an instruction");
+    core::mem::forget(r);
+}
+
+// C05-F: an Interrupted from the inner reader must be transient: retrying the read continues the stream.
+//@ {"name":"c05f_bcj_reader_interrupted","props":["C05"],"obligation":"C05-F","timeout":2400,"mem_gb":13,"functions":["filter::bcj::BCJReader::read"],"bounds":"ARM filter; 8 arbitrary bytes; inner reader reports Interrupted at its first call; then two retries; unwind 14","assumes":[]}
+#[kani::proof]
+#[kani::unwind(14)]
+fn c05f_bcj_reader_interrupted() {
+    let x: [u8; 8] = kani::any();
+    let mut src = FaultySrc::<8>::new(x, 8);
+    src.intr_at = 0;
+    let mut r = BCJReader::new_arm(src, 0);
+    let mut out = [0u8; 8];
+    let first = r.read(&mut out);
+    assert!(matches!(first, Err(crate::Error::Interrupted)));
+    let second = r.read(&mut out);
+    assert!(second.is_ok(), "C05-F: Interrupted from the source made the BCJ reader fail permanently");
+    kani::cover!(true, "end reached");
+    core::mem::forget(r);
+}
